@@ -77,6 +77,19 @@ def _mark_copy(m):
         m["ChatData"]["Message"] = "copy"
 
 
+def _names(i):
+    names = ("CompletePingCheck",)
+    return (n for n in names) if i % 2 else names
+
+
+# "truthy" is not the literal True: a count, a string, a non-empty container claim a message just as well
+TRUTHY = (True, 1, "claimed", (0,))
+
+
+def _truthy(cfg, idx):
+    return TRUTHY[(idx + (1 if cfg["dir"] == "IN" else 0) + (2 if cfg["rel"] else 0)) % len(TRUTHY)]
+
+
 class ScriptAddon:
     def __init__(self, idx, sc: Scenario):
         self.idx = idx
@@ -87,7 +100,7 @@ class ScriptAddon:
         self.sc.log.append(("pkt", self.idx, marker))
         beh = self.sc.cfg["pkt"][self.idx - 1] if marker == 1 else "falsy"
         if beh == "truthy":
-            return True
+            return _truthy(self.sc.cfg, self.idx)
         if beh == "raise":
             raise ValueError("scripted failure")
         return None
@@ -96,7 +109,7 @@ class ScriptAddon:
         self.sc.log.append(("rlv", self.idx, 1))
         beh = self.sc.cfg["rlv"][self.idx - 1]
         if beh == "truthy":
-            return True
+            return _truthy(self.sc.cfg, self.idx + 1)
         if beh == "raise":
             raise ValueError("scripted failure")
         return None
@@ -108,7 +121,8 @@ class ScriptAddon:
         self.sc.log.append(("udp", self.idx, marker))
         if marker != 1:
             return None
-        return self.sc.act(self.sc.cfg["udp"][self.idx - 1], region, message)
+        ret = self.sc.act(self.sc.cfg["udp"][self.idx - 1], region, message)
+        return _truthy(self.sc.cfg, self.idx + 2) if ret else ret
 
 
 class LogRecorder:
@@ -376,7 +390,8 @@ class WaiterImpl:
             rec = {"kind": act["kind"], "got": 0}
             if act["kind"] == "wait":
                 async def waiter():
-                    fut = mh.wait_for(("CompletePingCheck",), take=act["take"],
+                    # message names may be any iterable, also a one-shot one (generator): every other waiter uses one
+                    fut = mh.wait_for(_names(len(self.ws)), take=act["take"],
                                       timeout=(self.T * self.TIMEOUT_UNIT if act["to"] else None))
                     rec["fut"] = fut
                     try:
@@ -390,7 +405,7 @@ class WaiterImpl:
                 stop = self.loop.create_future()
 
                 async def block():
-                    with mh.subscribe_async(("CompletePingCheck",), take=act["take"]) as get_msg:
+                    with mh.subscribe_async(_names(len(self.ws) + 1), take=act["take"]) as get_msg:
                         ready.set_result(None)
 
                         async def drain():
